@@ -49,8 +49,8 @@ func (x *Exec) eval(e ast.Expr, st *St, fr *Frame, k kval) {
 				if a.T == nil {
 					oos("index of unsupported value")
 				}
-				if a.T.Sort == SSetStr {
-					k(st, &Val{T: Select(a.T, i.T), Ty: types.Typ[types.Bool]})
+				if _, isMap := fr.typeOf(n.X).Underlying().(*types.Map); isMap {
+					k(st, &Val{Ty: types.NewStruct(nil, nil), Fields: map[string]*Val{}})
 					return
 				}
 				if !a.T.Sort.IsSeq() {
@@ -445,7 +445,7 @@ func (x *Exec) evalComposite(n *ast.CompositeLit, st *St, fr *Frame, addr bool, 
 			oos("map literal of unsupported type %s", ty)
 		}
 		_ = s
-		k(st, &Val{T: emptySetStr(), Ty: ty})
+		k(st, x.newMap(st, ty))
 	default:
 		oos("composite literal of unsupported type %s", ty)
 	}
